@@ -936,14 +936,15 @@ def ordered_arguments(
   ):
     if param.kind not in (param.VAR_POSITIONAL, param.VAR_KEYWORD):
       value = unset
-      if name in buildable.__arguments__ or (
-          index in buildable.__arguments__
-          and param.kind == param.POSITIONAL_ONLY
-      ):
-        if name in buildable.__arguments__:
-          value = buildable.__arguments__[name]
-        else:
-          value = buildable.__arguments__[index]
+      if param.kind == param.POSITIONAL_ONLY:
+        # Positional-only arguments are keyed by index. (A *string* key that
+        # equals the name of a positional-only parameter is a `**kwargs` entry,
+        # see below.)
+        key = index
+      else:
+        key = name
+      if key in buildable.__arguments__:
+        value = buildable.__arguments__[key]
       elif param.default is not param.empty:
         if include_defaults:
           value = param.default
@@ -965,8 +966,16 @@ def ordered_arguments(
 
   if include_var_keyword:
     for name, value in buildable.__arguments__.items():
+      if not isinstance(name, str):
+        continue
       param = buildable.__signature_info__.parameters.get(name)
-      if param is None or param.kind == param.VAR_KEYWORD:
+      # Names of positional-only and variadic parameters cannot be passed by
+      # keyword, so such a key is consumed by `**kwargs`, like unknown names.
+      if param is None or param.kind in (
+          param.VAR_KEYWORD,
+          param.POSITIONAL_ONLY,
+          param.VAR_POSITIONAL,
+      ):
         result[name] = value
 
   if not include_positional:
